@@ -100,10 +100,13 @@ static SinkSlot g_s1, g_s2;
 extern "C" void h_sink_filters()
 {
   RecSink& s1 = *new (&g_s1.s) RecSink(); RecSink& s2 = *new (&g_s2.s) RecSink();
+  // no vector reallocation later: libstdc++ relocates raw pointers with memmove, and CBMC's symbolic execution loses track
+  // of a pointer that went through a byte-wise copy
+  s1._local_filters.reserve(4); s1._global_filters.reserve(4); s2._local_filters.reserve(4); s2._global_filters.reserve(4);
   LogLevel t1 = static_cast<LogLevel>(vnd_range(0, 10)), t2 = static_cast<LogLevel>(vnd_range(0, 10));
   s1.set_log_level_filter(t1); s2.set_log_level_filter(t2);
   bool v1 = vnd_bool(), v2 = vnd_bool(), v3 = vnd_bool();
-  const uint64_t nf1 = NF1;                         // sink 1 has NF1 (0..2) filters, sink 2 has F2 (0..1): concrete per query
+  const uint64_t nf1 = (NF1 == 3 ? 2 : NF1);                         // sink 1 has NF1 (0..2) filters, sink 2 has F2 (0..1): concrete per query
   const bool f2 = F2;                               // (a symbolic allocation pattern makes CBMC's heap encoding explode)
   VFilter* a = nullptr; VFilter* b = nullptr; VFilter* c = nullptr;
   LogLevel lv0 = static_cast<LogLevel>(vnd_range(0, 8));
@@ -114,6 +117,12 @@ extern "C" void h_sink_filters()
   { auto p = std::make_unique<VFilter>("a", v1); a = p.get(); s1.add_filter(std::move(p)); }
 #elif NF1 == 2
   { auto p = std::make_unique<VFilter>("a", v1); a = p.get(); s1.add_filter(std::move(p)); }
+  { auto p = std::make_unique<VFilter>("b", v2); b = p.get(); s1.add_filter(std::move(p)); }
+#elif NF1 == 3
+  // the backend already holds a cached copy with ONE filter when the second one is added
+  { auto p = std::make_unique<VFilter>("a", v1); a = p.get(); s1.add_filter(std::move(p)); }
+  bool r0 = s1.apply_all_filters(nullptr, 1, "t", "n", "l", lv0, "m", "s");
+  VASSERT(r0 == (lv0 >= t1 && v1));
   { auto p = std::make_unique<VFilter>("b", v2); b = p.get(); s1.add_filter(std::move(p)); }
 #endif
   if (f2) { auto p = std::make_unique<VFilter>("a", v3); c = p.get(); s2.add_filter(std::move(p)); }
